@@ -24,7 +24,7 @@ def main(path, window=45):
     if se.strip(): print('stderr:\n' + se[-3000:])
     import check_log, logparse, check
     header, ops, trailer, stray = logparse.parse(logp)
-    knobs = {k: v for k, v in check.PROFILES.get(run.get('profile'), {}).items() if k in ('zeroUtil', 'palette')}
+    knobs = {k: v for k, v in check.PROFILES.get(run.get('profile'), {}).items() if k in ('zeroUtil', 'palette', 'pConsume')}
     chk = check_log.Checker(sj, int(header[3]), knobs, int(header[5]), header[4] == '1')
     chk.run(ops)
     hit = None
